@@ -22,6 +22,7 @@ import (
 	"testing"
 	"time"
 
+	"github.com/NethermindEth/juno/core"
 	"github.com/NethermindEth/juno/db"
 	"github.com/NethermindEth/juno/db/memory"
 	"github.com/NethermindEth/juno/pruner"
@@ -602,6 +603,9 @@ func TestPruneConcurrent(t *testing.T) {
 	defer machinery(out)
 	startDeadline(out, in.DeadlineSec)
 	rounds := 0
+	if len(in.NewState) == 0 {
+		in.NewState = []bool{false, true}
+	}
 	for _, ns := range in.NewState {
 		for _, pb := range []int{1, 99} {
 			c := consts{MaxH: 44, InitH: 36, MaxL1: 44, Retained: 1, PruneBatch: pb, L2PerPrune: 1}
@@ -651,6 +655,7 @@ func concurrentRound(r *runner, w *world, out *vh.Result, pb int) {
 			fn()
 		}()
 	}
+	w.noStateByHash = true
 	// slow the prune down a little so that every reader sees many intermediate states
 	w.fk.OnWrite = func(int, string) { time.Sleep(2 * time.Millisecond) }
 	for g := 0; g < 3; g++ {
@@ -663,14 +668,41 @@ func concurrentRound(r *runner, w *world, out *vh.Result, pb int) {
 				default:
 				}
 				n := uint64(i % 37)
-				if st, closer, err := w.node.BC.StateAtBlockNumber(n); err == nil {
-					if tst, tcl, terr := w.twin.BC.StateAtBlockNumber(n); terr == nil {
-						w.cmpState("concurrent:state-by-number", n, st, tst, add)
-						_ = tcl()
+				// A state reader is judged by where it stands when it has been READ: if the node
+				// still admits the same request afterwards, the floor was at or below n during the
+				// whole read and the answer must be the twin's.  A reader that outlived its
+				// admission (the floor was raised / the hash unmapped meanwhile) is a different
+				// matter: StateAt* promises a stable view, the legacy backend reads the live
+				// database — reported under its own key.
+				judge := func(how string, open func() (core.StateReader, func() error, error)) {
+					st, closer, err := open()
+					if err != nil {
+						if !errors.Is(err, db.ErrKeyNotFound) && !errors.Is(err, pruner.ErrBlockPruned) {
+							add("concurrent:"+how+":error", fmt.Sprintf("state at %d: %v", n, err))
+						}
+						return
 					}
-					_ = closer()
-				} else if !errors.Is(err, db.ErrKeyNotFound) && !errors.Is(err, pruner.ErrBlockPruned) {
-					add("concurrent:state-by-number:error", fmt.Sprintf("state at %d: %v", n, err))
+					defer closer()
+					tst, tcl, terr := w.twin.BC.StateAtBlockNumber(n)
+					if terr != nil {
+						return
+					}
+					defer tcl()
+					var bad []string
+					w.cmpState(how, n, st, tst, func(sym, detail string) { bad = append(bad, sym+" — "+detail) })
+					if len(bad) == 0 {
+						return
+					}
+					if _, c2, err2 := open(); err2 == nil {
+						_ = c2()
+						add("concurrent:"+how+":wrong-value", bad[0])
+					} else {
+						add("concurrent:reader-outlives-floor-check:"+how, bad[0])
+					}
+				}
+				judge("state-by-number", func() (core.StateReader, func() error, error) { return w.node.BC.StateAtBlockNumber(n) })
+				if hd, err := w.twin.BC.BlockHeaderByNumber(n); err == nil {
+					judge("state-by-hash", func() (core.StateReader, func() error, error) { return w.node.BC.StateAtBlockHash(hd.Hash) })
 				}
 				sub := func(sym, detail string) { add("concurrent:"+sym, detail) }
 				w.sweepBlock(w.node.BC, w.raw, n, n >= keep, sub)
@@ -709,6 +741,7 @@ func concurrentRound(r *runner, w *world, out *vh.Result, pb int) {
 	close(stop)
 	wg.Wait()
 	w.fk.OnWrite = nil
+	w.noStateByHash = false
 	if res.kind != "ok" {
 		add("concurrent:prune-result", res.String())
 	}
@@ -719,11 +752,14 @@ func concurrentRound(r *runner, w *world, out *vh.Result, pb int) {
 		add("concurrent:final-oldest", fmt.Sprintf("oldest retained %d after the prune, want %d", p.Oldest, keep))
 	}
 	out.Count("concurrent_reads", reads)
-	if reads < 30 {
+	if reads < 10 {
 		panic(fmt.Sprintf("prune engine: the concurrent readers made only %d reads during the prune", reads))
 	}
 	for sym, detail := range found {
 		key := "prune-damage:" + sym
+		if strings.HasPrefix(sym, "concurrent:reader-outlives-floor-check") {
+			key = "prune-concurrent:reader-outlives-floor-check:wrong-value"
+		}
 		out.Diverge(vh.Divergence{Key: key, What: fmt.Sprintf("[%s] newState=%v, batches of %d: reader concurrent with an in-flight prune of blocks 0..32 (chain 0..36 growing to 39): %s", key, r.ns, pb, detail),
 			Input: vh.J{"concurrent": pb, "newState": r.ns}})
 	}
